@@ -76,9 +76,10 @@ def judgeConv (payload impl : String) : Verdict :=
               ((hs.filter fun h => Wire.lower h.1 == bytesOfString "pragma").head?.map (·.2)) == some (bytesOfString "no-cache") &&
               !hs.any (fun h => Wire.lower h.1 == bytesOfString "cache-control")
            if conv.any (fun (q, r) => invents q.headers || invents r.headers) then ["http-pragma-cache-control"] else [])
-        -- on a tagged conversation the stream is mis-framed from the HEAD response on; how net/http
-        -- recovers from the resulting garbage is outside the wire model: correspondence is not evaluated
-        { corr := !tags.isEmpty || implStripped == some m.toStr, implSpec := !crashed && implStripped == some want.toStr,
+        -- on a conversation tagged for HEAD the stream is mis-framed from the HEAD response on; how net/http
+        -- recovers from the resulting garbage is outside the wire model: correspondence is not evaluated there.
+        -- The Pragma invention is modelled (`pragmaFix`): on those conversations the model must predict the dissector.
+        { corr := tags.contains "http-head-response-body" || implStripped == some m.toStr, implSpec := !crashed && implStripped == some want.toStr,
           modelSpec := m.toStr == want.toStr, tags, nontrivial := conv.length ≥ 1,
           cls := s!"n={min conv.length 4}", model := m.toStr, spec := want.toStr }
   | _ => .bad "bad-case"
